@@ -53,6 +53,8 @@ type site struct {
 	Expr  string // the ranged expression
 	Class string // Comm | SortedAfter | Sens
 	Why   string // what decided (first order-sensitive statement / the sort call)
+	App   int    // slices (declared outside the loop) the body appends to
+	Srt   int    // ... of which are passed to a sort call later in the same declaration
 	Line  int    // not written to the Coq file
 }
 
@@ -240,7 +242,7 @@ func censusDecl(fset *token.FileSet, info *types.Info, fn string, node ast.Node,
 		ord++
 		c := &classifier{fset: fset, info: info, loop: rs, fn: node}
 		class, why := c.classify()
-		res = append(res, site{File: file, Func: fn, Ord: ord, Expr: exprString(fset, rs.X), Class: class, Why: why, Line: fset.Position(rs.Pos()).Line})
+		res = append(res, site{File: file, Func: fn, Ord: ord, Expr: exprString(fset, rs.X), Class: class, Why: why, App: len(c.appends), Srt: c.nsorted, Line: fset.Position(rs.Pos()).Line})
 		return true
 	})
 	return res
@@ -256,6 +258,8 @@ type classifier struct {
 	appends []types.Object // non-local slices appended to in the body
 	appExpr []string
 	why     string
+	failed  bool
+	nsorted int
 }
 
 // classify returns Comm when every effect of the body is a map insert/delete, a commutative
@@ -264,28 +268,40 @@ type classifier struct {
 // the only other effects are appends to slices each of which is passed to a sort call later in
 // the same function; Sens otherwise.
 func (c *classifier) classify() (string, string) {
-	if !c.block(c.loop.Body.List) {
-		return "Sens", c.why
-	}
-	if len(c.appends) == 0 {
-		return "Comm", ""
-	}
+	// the whole body is scanned even after the first order-sensitive statement, so that the
+	// appends (and whether they are sorted later) are counted for every site
+	c.block(c.loop.Body.List)
 	var sorts []string
+	unsorted := ""
 	for i, o := range c.appends {
 		s := c.sortedLater(o, c.appExpr[i])
 		if s == "" {
-			return "Sens", "append to " + c.appExpr[i] + " never sorted in this function"
+			if unsorted == "" {
+				unsorted = "append to " + c.appExpr[i] + " never sorted in this function"
+			}
+			continue
 		}
+		c.nsorted++
 		sorts = append(sorts, s)
+	}
+	switch {
+	case c.failed:
+		return "Sens", c.why
+	case unsorted != "":
+		return "Sens", unsorted
+	case len(c.appends) == 0:
+		return "Comm", ""
 	}
 	return "SortedAfter", strings.Join(sorts, "; ")
 }
 
+// fail records the first order-sensitive statement; scanning continues.
 func (c *classifier) fail(n ast.Node, what string) bool {
 	if c.why == "" {
 		c.why = what + ": " + trunc(exprString(c.fset, n), 80)
 	}
-	return false
+	c.failed = true
+	return true
 }
 
 func trunc(s string, n int) string {
@@ -597,7 +613,7 @@ func censusCoq(sites []site) string {
 		if i == len(sites)-1 {
 			sep = ""
 		}
-		fmt.Fprintf(&b, "  MR %s %s %d %s %s%s\n", coqString(s.File), coqString(s.Func), s.Ord, coqString(s.Expr), s.Class, sep)
+		fmt.Fprintf(&b, "  MR %s %s %d %s %s %d %d%s\n", coqString(s.File), coqString(s.Func), s.Ord, coqString(s.Expr), s.Class, s.App, s.Srt, sep)
 	}
 	b.WriteString("].\n")
 	return b.String()
@@ -621,7 +637,7 @@ func censusMain(outDir string, verbose bool) int {
 	}
 	if verbose {
 		for _, s := range sites {
-			fmt.Printf("%-11s %s:%d %s #%d range %s   %s\n", s.Class, s.File, s.Line, s.Func, s.Ord, s.Expr, s.Why)
+			fmt.Printf("%-11s app=%d srt=%d %s:%d %s #%d range %s   %s\n", s.Class, s.App, s.Srt, s.File, s.Line, s.Func, s.Ord, s.Expr, s.Why)
 		}
 	}
 	changed, err := writeIfChanged(filepath.Join(outDir, "Gen_MapRanges.v"), censusCoq(sites))
